@@ -157,6 +157,7 @@ theorem noBypass_of_noInternal {e : Ev} (he : NoInternalLogin e) : NoBypassLogin
   | ping c m => trivial
   | newProxy c n => trivial
   | drop c => trivial
+  | user n => trivial
 
 theorem step_allCfg {e : Ev} (he : NoBypassLogin P e) (h : AllCfg srv) :
     AllCfg (stepG fx P pr cfg srv e).1 := by
@@ -232,6 +233,13 @@ theorem step_allCfg {e : Ev} (he : NoBypassLogin P e) (h : AllCfg srv) :
     simp only [stepG, sessionEnd]
     intro s hs
     exact h s (List.mem_filter.mp hs).1
+  | user n =>
+    simp only [stepG, takeWork]
+    split
+    · exact h
+    · split
+      · exact h
+      · exact allCfg_updSession (fun _ => rfl) h
 
 /-- over EVERY history without a login on the internal listener (whatever the peers send, incl. the
     flag), no session ever holds the always-pass verifier -/
@@ -563,6 +571,13 @@ theorem new_session_only_by_login {e : Ev} {c : ConnId}
     simp only [stepG, sessionEnd, ctls, List.mem_map, List.mem_filter] at hnew
     obtain ⟨s, ⟨hs, _⟩, e⟩ := hnew
     exact absurd (List.mem_map.mpr ⟨s, hs, e⟩) hold
+  | user n =>
+    simp only [stepG, takeWork] at hnew
+    split at hnew
+    · exact absurd hnew hold
+    · split at hnew
+      · exact absurd hnew hold
+      · exact absurd (mem_ctls_updSession hnew (fun _ => rfl)) hold
 
 /-- a proxy is registered only on the control connection of a live (hence logged-in) session -/
 theorem proxy_needs_session {name : Str}
@@ -777,6 +792,12 @@ theorem step_subjects {e : Ev} {sub : Subject} (h : sub ∈ (stepG fx P pr cfg s
     · exact h
     · split at h <;> exact h
   | drop c => exact Or.inl h
+  | user n =>
+    left
+    simp only [stepG, takeWork] at h
+    split at h
+    · exact h
+    · split at h <;> exact h
 
 /-- over EVERY history: a subject is in `subjectsFromLogin` only if it was there at the start or some
     login in the history was verified (by the configured verifier) with a token of that subject - so the
@@ -793,6 +814,445 @@ theorem subjects_only_from_logins (evs : List Ev) {sub : Subject}
       · exact Or.inl h2
       · exact Or.inr ⟨e, List.mem_cons_self, h2⟩
     · exact Or.inr ⟨e', List.mem_cons_of_mem _ he', hl⟩
+
+/-! ## 5c. Time and the provider's key set: no verdict is remembered
+
+  The histories above run with ONE `Prim`.  Here every message arrives at its own `Moment` (clock, JWKS document
+  served at that time) and the verifier's key cache is state (`AuthGate.stepT` / `runT`).  Because every theorem
+  of this file holds for all `Prim`, it holds at every moment with `primAt pt (mo.idp cache)`; what is added is
+  (1) acceptance is decided by the token, the moment, the cache and the login subjects - not by the session table
+  and not by what was accepted before (`*_depends`), (2) a token that is not valid NOW is refused after EVERY
+  history, including histories in which the very same token was accepted any number of times
+  (`replay_refused_after_any_history`), with the two ways a token stops being valid spelled out (`expired_none`,
+  `unpublished_none`, `rotated_key_refused`), (3) the cache only ever holds keys the provider published
+  (`cache_provenance`). -/
+
+theorem sigOkAt_iff {pt : PrimT} {w : Idp} {key : Key} :
+    sigOkAt pt w key = true ↔ pt.jwsOk key = true ∧
+      ((∃ j ∈ w.cache, pt.sigBy key j = true) ∨ ∃ ks, w.jwks = some ks ∧ ∃ j ∈ ks, pt.sigBy key j = true) := by
+  unfold sigOkAt
+  cases hj : w.jwks with
+  | none => simp [List.any_eq_true]
+  | some ks => simp [List.any_eq_true]
+
+/-- expired now (and the operator did not switch the check off): not accepted, whatever keys are cached or published -/
+theorem expired_none {pt : PrimT} {w : Idp} {oc : OidcCfg} {key : Key} {c : Claims}
+    (hc : pt.jwtClaims key = some c) (he : oc.skipExpiry = false) (hx : c.exp < w.now) :
+    oidcVerify (primAt pt w) oc key = none := by
+  simp [oidcVerify, primAt, hc, timeOk, he, hx]
+
+/-- signed by no key that is cached or published now: not accepted, whatever its claims say -/
+theorem unpublished_none {pt : PrimT} {w : Idp} {oc : OidcCfg} {key : Key}
+    (h1 : ∀ j ∈ w.cache, pt.sigBy key j = false)
+    (h2 : ∀ ks, w.jwks = some ks → ∀ j ∈ ks, pt.sigBy key j = false) :
+    oidcVerify (primAt pt w) oc key = none := by
+  have hs : sigOkAt pt w key = false := by
+    cases h : sigOkAt pt w key with
+    | false => rfl
+    | true =>
+      obtain ⟨_, hor⟩ := sigOkAt_iff.mp h
+      rcases hor with ⟨j, hj, e⟩ | ⟨ks, hk, j, hj, e⟩
+      · rw [h1 j hj] at e; cases e
+      · rw [h2 ks hk j hj] at e; cases e
+  unfold oidcVerify
+  cases hc : (primAt pt w).jwtClaims key with
+  | none => rfl
+  | some c =>
+    have : (primAt pt w).jwtSigOk key = false := hs
+    simp [this]
+
+/-- OIDC, network listener: a login whose key the verifier does not accept NOW is refused, nothing changes -/
+theorem stale_login_refused {m m' : Login} (hm : cfg.method = .oidc) (hp : P.login m = some m')
+    (hv : oidcVerify pr cfg.oidc m'.key = none) :
+    handleFirstG fx P pr cfg srv false conn (.login m) = (srv, { reply := .loginErr, closed := true }) := by
+  apply login_refused
+  rintro ⟨m'', hp', hs⟩
+  rw [hp] at hp'
+  cases hp'
+  have hk : verifierFor false m' = .cfg := rfl
+  rw [hk] at hs
+  simp [verifyLogin, hm, hv] at hs
+
+/-- OIDC, HeartBeats scope, ordinary session: a ping whose key is not accepted NOW moves nothing -/
+theorem stale_ping_refused {s : Session} {m m' : Ping} (hm : cfg.method = .oidc) (hs : byCtl srv conn = some s)
+    (hk : s.vk = .cfg) (hb : cfg.hb = true) (hp : P.ping m = some m')
+    (hv : oidcVerify pr cfg.oidc m'.key = none) :
+    handlePing P pr cfg srv conn m = (srv, { reply := .pongErr, closed := false }) := by
+  apply ping_scope hs hk hb hp
+  simp [keyOk, hm, oidcPost, hv]
+
+/-- OIDC, NewWorkConns scope, network listener: a work connection whose key is not accepted NOW is closed,
+    nothing changes -/
+theorem stale_work_refused {m : WorkConn} (hm : cfg.method = .oidc) (hw : cfg.wc = true)
+    (hv : ∀ m', P.work m = some m' → oidcVerify pr cfg.oidc m'.key = none) :
+    (registerWork true P pr cfg srv false conn m).2.closed = true ∧
+      (registerWork true P pr cfg srv false conn m).1 = srv := by
+  have hc : (registerWork true P pr cfg srv false conn m).2.closed = true := by
+    cases h : (registerWork true P pr cfg srv false conn m).2.closed with
+    | true => rfl
+    | false =>
+      obtain ⟨s, m', _, hp, hk⟩ := workconn_scope_fixed P pr cfg srv conn m hw h
+      simp [keyOk, hm, oidcPost, hv m' hp] at hk
+  exact ⟨hc, workconn_refused hc⟩
+
+/-- THE CLAUSE OVER TIMED HISTORIES.  Take any history `evs` - every message at its own moment, the key cache
+    evolving as go-oidc's does, the same token possibly accepted in it any number of times - and any later moment
+    `mo` at which the verifier does not accept `key` (expired: `expired_none`; its signing key gone from cache and
+    JWKS: `unpublished_none` / `rotated_key_refused`).  Then at `mo`: a login with `key` is refused, a heartbeat
+    with `key` (scope on) moves nothing, a work connection with `key` (scope on) is closed - and frps's tables
+    are unchanged each time. -/
+theorem replay_refused_after_any_history {pt : PrimT} (evs : List (Moment × Ev)) (st0 : TSrv) (mo : Moment)
+    {key : Key} (hm : cfg.method = .oidc)
+    (hv : oidcVerify (primAt pt (mo.idp (runT true P pt cfg st0 evs).cache)) cfg.oidc key = none) :
+    let st := runT true P pt cfg st0 evs
+    (∀ c m m', P.login m = some m' → m'.key = key →
+        (stepT true P pt cfg st mo (.first false c (.login m))).1.srv = st.srv ∧
+        (stepT true P pt cfg st mo (.first false c (.login m))).2 = { reply := .loginErr, closed := true }) ∧
+    (∀ c s m m', byCtl st.srv c = some s → s.vk = .cfg → cfg.hb = true → P.ping m = some m' → m'.key = key →
+        (stepT true P pt cfg st mo (.ping c m)).1.srv = st.srv ∧
+        (stepT true P pt cfg st mo (.ping c m)).2 = { reply := .pongErr, closed := false }) ∧
+    (∀ c m, cfg.wc = true → (∀ m', P.work m = some m' → m'.key = key) →
+        (stepT true P pt cfg st mo (.first false c (.work m))).1.srv = st.srv ∧
+        (stepT true P pt cfg st mo (.first false c (.work m))).2.closed = true) := by
+  intro st
+  refine ⟨?_, ?_, ?_⟩
+  · intro c m m' hp hk
+    subst hk
+    have h := stale_login_refused (fx := true) (srv := st.srv) (conn := c) hm hp hv
+    simp only [stepT, stepG]
+    rw [h]
+    exact ⟨rfl, rfl⟩
+  · intro c s m m' hs hk hb hp hkey
+    subst hkey
+    have h := stale_ping_refused (srv := st.srv) (conn := c) hm hs hk hb hp hv
+    simp only [stepT, stepG]
+    rw [h]
+    exact ⟨rfl, rfl⟩
+  · intro c m hw hk
+    have h := stale_work_refused (srv := st.srv) (conn := c) (m := m) hm hw
+      (fun m' hp => by rw [hk m' hp]; exact hv)
+    simp only [stepT, stepG, handleFirstG]
+    exact ⟨h.2, h.1⟩
+
+theorem cacheAfterVerify_mem {pt : PrimT} {oc : OidcCfg} {w : Idp} {key : Key} {j : Jwk}
+    (h : j ∈ cacheAfterVerify pt oc w key) : j ∈ w.cache ∨ ∃ ks, w.jwks = some ks ∧ j ∈ ks := by
+  unfold cacheAfterVerify at h
+  split at h
+  · exact Or.inl h
+  · split at h
+    · unfold cacheAfterSig at h
+      split at h
+      · exact Or.inl h
+      · split at h
+        · rename_i ks hk
+          exact Or.inr ⟨ks, hk, h⟩
+        · exact Or.inl h
+    · exact Or.inl h
+
+theorem cache_step {pt : PrimT} {st : TSrv} {mo : Moment} {e : Ev} {j : Jwk}
+    (h : j ∈ (stepT fx P pt cfg st mo e).1.cache) : j ∈ st.cache ∨ ∃ ks, mo.jwks = some ks ∧ j ∈ ks := by
+  simp only [stepT] at h
+  split at h
+  · exact cacheAfterVerify_mem h
+  · exact Or.inl h
+
+/-- over every timed history: a key is in the verifier's cache only if it was there at the start or the
+    provider's JWKS document listed it at some moment of the history -/
+theorem cache_provenance {pt : PrimT} (evs : List (Moment × Ev)) {st : TSrv} {j : Jwk}
+    (h : j ∈ (runT fx P pt cfg st evs).cache) :
+    j ∈ st.cache ∨ ∃ me ∈ evs, ∃ ks, me.1.jwks = some ks ∧ j ∈ ks := by
+  induction evs generalizing st with
+  | nil => exact Or.inl h
+  | cons me rest ih =>
+    simp only [runT, List.foldl_cons] at h
+    rcases ih h with h1 | ⟨me', hme, ks, hk, hj⟩
+    · rcases cache_step h1 with h2 | ⟨ks, hk, hj⟩
+      · exact Or.inl h2
+      · exact Or.inr ⟨me, List.mem_cons_self, ks, hk, hj⟩
+    · exact Or.inr ⟨me', List.mem_cons_of_mem _ hme, ks, hk, hj⟩
+
+/-- key rotation: a token signed by a key that was not cached when the history began and that the provider
+    published at no moment of the history and does not publish now is not accepted - whatever else happened -/
+theorem rotated_key_refused {pt : PrimT} (evs : List (Moment × Ev)) (st0 : TSrv) (mo : Moment) {key : Key}
+    (h0 : ∀ j ∈ st0.cache, pt.sigBy key j = false)
+    (hh : ∀ me ∈ evs, ∀ ks, me.1.jwks = some ks → ∀ j ∈ ks, pt.sigBy key j = false)
+    (hnow : ∀ ks, mo.jwks = some ks → ∀ j ∈ ks, pt.sigBy key j = false) :
+    oidcVerify (primAt pt (mo.idp (runT fx P pt cfg st0 evs).cache)) cfg.oidc key = none := by
+  apply unpublished_none
+  · intro j hj
+    rcases cache_provenance evs hj with h1 | ⟨me, hme, ks, hk, hjk⟩
+    · exact h0 j h1
+    · exact hh me hme ks hk j hjk
+  · exact hnow
+
+theorem verifyLogin_isSome_indep {s₁ s₂ : List Subject} {vk : VKind} {m : Login} :
+    (verifyLogin pr cfg s₁ vk m).isSome = (verifyLogin pr cfg s₂ vk m).isSome := by
+  unfold verifyLogin
+  cases vk with
+  | alwaysPass => rfl
+  | cfg =>
+    cases cfg.method with
+    | token => simp only; split <;> rfl
+    | oidc => simp only; cases oidcVerify pr cfg.oidc m.key <;> rfl
+
+/-- the answer to a login does not depend on the server's state at all: it is a function of the message, the
+    configuration and the primitives of the moment -/
+theorem login_reply_depends (srv₁ srv₂ : Srv) (c₁ c₂ : ConnId) (m : Login) :
+    (handleFirstG fx P pr cfg srv₁ internal c₁ (.login m)).2 =
+      (handleFirstG fx P pr cfg srv₂ internal c₂ (.login m)).2 := by
+  simp only [handleFirstG]
+  cases P.login m with
+  | none => rfl
+  | some m' =>
+    simp only [registerControl]
+    have h := verifyLogin_isSome_indep (pr := pr) (cfg := cfg) (s₁ := srv₁.subjects) (s₂ := srv₂.subjects)
+      (vk := verifierFor internal m') (m := m')
+    cases h1 : verifyLogin pr cfg srv₁.subjects (verifierFor internal m') m' with
+    | none =>
+      cases h2 : verifyLogin pr cfg srv₂.subjects (verifierFor internal m') m' with
+      | none => rfl
+      | some _ => simp [h1, h2] at h
+    | some _ =>
+      cases h2 : verifyLogin pr cfg srv₂.subjects (verifierFor internal m') m' with
+      | none => simp [h1, h2] at h
+      | some _ => rfl
+
+theorem keyOk_congr {a b : List Subject} (h : ∀ x, x ∈ a ↔ x ∈ b) (ts : Int) (key : Key) :
+    keyOk pr cfg a ts key = keyOk pr cfg b ts key := by
+  unfold keyOk
+  cases cfg.method with
+  | token => rfl
+  | oidc =>
+    simp only [oidcPost]
+    cases oidcVerify pr cfg.oidc key with
+    | none => rfl
+    | some sub => simp only; rw [decide_eq_decide]; exact h sub
+
+/-- the answer to a heartbeat depends on: the message, the moment's primitives, which verifier the session holds
+    and WHICH SUBJECTS have logged in - nothing else of the server's state or past -/
+theorem ping_reply_depends {srv₁ srv₂ : Srv} {c₁ c₂ : ConnId} {s₁ s₂ : Session}
+    (h1 : byCtl srv₁ c₁ = some s₁) (h2 : byCtl srv₂ c₂ = some s₂) (hv : s₁.vk = s₂.vk)
+    (hs : ∀ x, x ∈ srv₁.subjects ↔ x ∈ srv₂.subjects) (m : Ping) :
+    (handlePing P pr cfg srv₁ c₁ m).2 = (handlePing P pr cfg srv₂ c₂ m).2 := by
+  simp only [handlePing, h1, h2]
+  cases P.ping m with
+  | none => rfl
+  | some m' =>
+    have e : verifyPing pr cfg srv₁.subjects s₁.vk m' = verifyPing pr cfg srv₂.subjects s₂.vk m' := by
+      rw [hv]; unfold verifyPing
+      cases s₂.vk with
+      | alwaysPass => rfl
+      | cfg => simp only; rw [keyOk_congr hs]
+    simp only [e]
+    split <;> rfl
+
+/-- the fate of a work connection depends on: the message, the moment's primitives, the verifier of the session
+    it names, whether that session's pool has room, and which subjects have logged in -/
+theorem work_reply_depends {srv₁ srv₂ : Srv} {c₁ c₂ : ConnId} {s₁ s₂ : Session} {m : WorkConn}
+    (h1 : lookup srv₁ m.runId = some s₁) (h2 : lookup srv₂ m.runId = some s₂) (hv : s₁.vk = s₂.vk)
+    (hroom : s₁.pool.length < s₁.poolCap ↔ s₂.pool.length < s₂.poolCap)
+    (hs : ∀ x, x ∈ srv₁.subjects ↔ x ∈ srv₂.subjects) :
+    (registerWork fx P pr cfg srv₁ internal c₁ m).2 = (registerWork fx P pr cfg srv₂ internal c₂ m).2 := by
+  simp only [registerWork, h1, h2]
+  cases P.work m with
+  | none => rfl
+  | some m' =>
+    have e : verifyWork pr cfg srv₁.subjects (workVerifier fx internal s₁) m'
+        = verifyWork pr cfg srv₂.subjects (workVerifier fx internal s₂) m' := by
+      have : workVerifier fx internal s₁ = workVerifier fx internal s₂ := by simp only [workVerifier, hv]
+      rw [this]; unfold verifyWork
+      cases workVerifier fx internal s₂ with
+      | alwaysPass => rfl
+      | cfg => simp only; rw [keyOk_congr hs]
+    simp only [e]
+    split
+    · by_cases hr : s₁.pool.length < s₁.poolCap
+      · simp [hr, hroom.mp hr]
+      · have hr2 : ¬ s₂.pool.length < s₂.poolCap := fun h => hr (hroom.mpr h)
+        simp [hr, hr2]
+    · rfl
+
+/-- THE SAME OVER TIMED HISTORIES.  Two histories whatsoever (`evs₁`, `evs₂` from any states - in one of them the
+    token may have been accepted a hundred times, in the other never) that leave go-oidc with the same cached keys:
+    a login arriving at the same moment gets the same answer. -/
+theorem timed_login_depends {pt : PrimT} (evs₁ evs₂ : List (Moment × Ev)) (st₁ st₂ : TSrv) (mo : Moment)
+    (c₁ c₂ : ConnId) (m : Login)
+    (hc : (runT fx P pt cfg st₁ evs₁).cache = (runT fx P pt cfg st₂ evs₂).cache) :
+    (stepT fx P pt cfg (runT fx P pt cfg st₁ evs₁) mo (.first internal c₁ (.login m))).2 =
+      (stepT fx P pt cfg (runT fx P pt cfg st₂ evs₂) mo (.first internal c₂ (.login m))).2 := by
+  simp only [stepT, stepG, hc]
+  exact login_reply_depends _ _ _ _ _
+
+/-- … a heartbeat: the same answer if, besides the cached keys, the two sessions hold the same kind of verifier and
+    the same subjects have logged in -/
+theorem timed_ping_depends {pt : PrimT} (evs₁ evs₂ : List (Moment × Ev)) (st₁ st₂ : TSrv) (mo : Moment)
+    {c₁ c₂ : ConnId} {s₁ s₂ : Session} (m : Ping)
+    (hc : (runT fx P pt cfg st₁ evs₁).cache = (runT fx P pt cfg st₂ evs₂).cache)
+    (h1 : byCtl (runT fx P pt cfg st₁ evs₁).srv c₁ = some s₁) (h2 : byCtl (runT fx P pt cfg st₂ evs₂).srv c₂ = some s₂)
+    (hv : s₁.vk = s₂.vk)
+    (hs : ∀ x, x ∈ (runT fx P pt cfg st₁ evs₁).srv.subjects ↔ x ∈ (runT fx P pt cfg st₂ evs₂).srv.subjects) :
+    (stepT fx P pt cfg (runT fx P pt cfg st₁ evs₁) mo (.ping c₁ m)).2 =
+      (stepT fx P pt cfg (runT fx P pt cfg st₂ evs₂) mo (.ping c₂ m)).2 := by
+  simp only [stepT, stepG, hc]
+  exact ping_reply_depends h1 h2 hv hs m
+
+/-- … a work connection: additionally whether the named session's pool has room -/
+theorem timed_work_depends {pt : PrimT} (evs₁ evs₂ : List (Moment × Ev)) (st₁ st₂ : TSrv) (mo : Moment)
+    {c₁ c₂ : ConnId} {s₁ s₂ : Session} {m : WorkConn}
+    (hc : (runT fx P pt cfg st₁ evs₁).cache = (runT fx P pt cfg st₂ evs₂).cache)
+    (h1 : lookup (runT fx P pt cfg st₁ evs₁).srv m.runId = some s₁)
+    (h2 : lookup (runT fx P pt cfg st₂ evs₂).srv m.runId = some s₂) (hv : s₁.vk = s₂.vk)
+    (hroom : s₁.pool.length < s₁.poolCap ↔ s₂.pool.length < s₂.poolCap)
+    (hs : ∀ x, x ∈ (runT fx P pt cfg st₁ evs₁).srv.subjects ↔ x ∈ (runT fx P pt cfg st₂ evs₂).srv.subjects) :
+    (stepT fx P pt cfg (runT fx P pt cfg st₁ evs₁) mo (.first internal c₁ (.work m))).2 =
+      (stepT fx P pt cfg (runT fx P pt cfg st₂ evs₂) mo (.first internal c₂ (.work m))).2 := by
+  simp only [stepT, stepG, hc, handleFirstG]
+  exact work_reply_depends h1 h2 hv hroom hs
+
+/-- refused attempts at ANY moments (clock and key set changing between them, the key cache refreshed by them):
+    frps's tables stay what they were -/
+theorem refused_no_residue_timed {pt : PrimT} (as : List (Moment × Attempt)) (st : TSrv)
+    (h : ∀ a ∈ as, ∀ cache, Refused fx P (primAt pt (a.1.idp cache)) cfg st.srv a.2) :
+    (runT fx P pt cfg st (as.map (fun a => (a.1, attemptEv a.2)))).srv = st.srv := by
+  induction as generalizing st with
+  | nil => rfl
+  | cons a rest ih =>
+    have ha := h a List.mem_cons_self st.cache
+    have e : (stepT fx P pt cfg st a.1 (attemptEv a.2)).1.srv = st.srv := by
+      simp only [stepT, attemptEv, stepG]
+      exact first_refused_unchanged ha
+    simp only [runT, List.map_cons, List.foldl_cons]
+    have := ih (stepT fx P pt cfg st a.1 (attemptEv a.2)).1
+      (fun x hx cache => by rw [e]; exact h x (List.mem_cons_of_mem _ hx) cache)
+    simp only [runT] at this
+    rw [this, e]
+
+/-! ## 5d. User connections are served by checked work connections only -/
+
+theorem pooled_updSession_sub {rid : RunId} {f : Session → Session} {d : ConnId}
+    (hf : ∀ x, ∀ y ∈ (f x).pool, y ∈ x.pool) (h : d ∈ pooled (updSession srv rid f)) : d ∈ pooled srv := by
+  simp only [pooled, List.mem_flatMap] at h ⊢
+  obtain ⟨t, ht, hd⟩ := h
+  obtain ⟨s, hs, e⟩ := mem_updSession ht
+  subst e
+  split at hd
+  · exact ⟨s, hs, hf s d hd⟩
+  · exact ⟨s, hs, hd⟩
+
+/-- `Control.GetWorkConn`: what a user connection is joined with was in the pool -/
+theorem user_served_from_pool {name : Str} {c : ConnId} (h : (takeWork srv name).2 = some c) : c ∈ pooled srv := by
+  unfold takeWork at h
+  cases ho : proxyOwner srv name with
+  | none => simp [ho] at h
+  | some s =>
+    simp only [ho] at h
+    cases hp : s.pool with
+    | nil => simp [hp] at h
+    | cons x rest =>
+      simp only [hp, Option.some.injEq] at h
+      subst h
+      simp only [pooled, List.mem_flatMap]
+      exact ⟨s, List.mem_of_find?_eq_some ho, by rw [hp]; exact List.mem_cons_self⟩
+
+/-- one step, every event: a connection is in some pool afterwards only if it was before or this very event is
+    a work connection on it that the server kept open (i.e. that passed `workconn_scope_partial`'s conditions) -/
+theorem pooled_step {e : Ev} {c : ConnId} (h : c ∈ pooled (stepG fx P pr cfg srv e).1) :
+    c ∈ pooled srv ∨ ∃ i m, e = .first i c (.work m) ∧ (registerWork fx P pr cfg srv i c m).2.closed = false := by
+  cases e with
+  | first i c' m =>
+    cases m with
+    | login m =>
+      left
+      simp only [stepG, handleFirstG] at h
+      cases hp : P.login m with
+      | none => simp only [hp] at h; exact h
+      | some m' =>
+        simp only [hp, registerControl] at h
+        cases hv : verifyLogin pr cfg srv.subjects (verifierFor i m') m' with
+        | none => simp only [hv] at h; exact h
+        | some sj =>
+          simp only [hv, pooled, List.flatMap_append, List.mem_append, List.mem_flatMap, List.mem_filter,
+            List.mem_singleton] at h
+          rcases h with ⟨s, ⟨hs, _⟩, hc⟩ | ⟨s, hs, hc⟩
+          · simp only [pooled, List.mem_flatMap]; exact ⟨s, hs, hc⟩
+          · subst hs; simp at hc
+    | work m =>
+      simp only [stepG, handleFirstG] at h
+      by_cases hc : (registerWork fx P pr cfg srv i c' m).2.closed = true
+      · rw [workconn_refused hc] at h; exact Or.inl h
+      · have hc' : (registerWork fx P pr cfg srv i c' m).2.closed = false := by simpa using hc
+        obtain ⟨t, _, _, _, _, _, e⟩ := workconn_scope_partial hc'
+        rw [e] at h
+        rcases pooled_updSession_mem h with h1 | h1
+        · exact Or.inl h1
+        · subst h1; exact Or.inr ⟨i, m, rfl, hc'⟩
+    | visitor rid ok =>
+      left
+      have : (stepG fx P pr cfg srv (.first i c' (.visitor rid ok))).1 = srv := by
+        simp only [stepG, handleFirstG]
+        split
+        · rfl
+        · split <;> rfl
+      rw [this] at h; exact h
+    | other => exact Or.inl h
+    | garbage => exact Or.inl h
+  | ping c' m =>
+    left
+    simp only [stepG, handlePing] at h
+    split at h
+    · exact h
+    · split at h
+      · exact h
+      · split at h
+        · exact pooled_updSession_sub (f := fun x => { x with lastPing := x.lastPing + 1 }) (fun _ _ hy => hy) h
+        · exact h
+  | newProxy c' n =>
+    left
+    simp only [stepG, handleNewProxy] at h
+    split at h
+    · exact h
+    · split at h
+      · exact h
+      · exact pooled_updSession_sub (f := fun x => { x with proxies := x.proxies ++ [n] }) (fun _ _ hy => hy) h
+  | drop c' =>
+    left
+    simp only [stepG, sessionEnd, pooled, List.mem_flatMap, List.mem_filter] at h ⊢
+    obtain ⟨s, ⟨hs, _⟩, hc⟩ := h
+    exact ⟨s, hs, hc⟩
+  | user n =>
+    left
+    simp only [stepG, takeWork] at h
+    split at h
+    · exact h
+    · split at h
+      · exact h
+      · exact pooled_updSession_sub (fun _ _ hy => List.mem_of_mem_drop hy) h
+
+/-- over EVERY history (logins, heartbeats, proxies, drops, user connections, refused attempts of any number): a
+    connection sits in a pool only if it did at the start or the history contains a work connection on it that
+    the server accepted in the state it was in at that point -/
+theorem pooled_only_by_accepted_work (evs : List Ev) {c : ConnId} (h : c ∈ pooled (runG fx P pr cfg srv evs)) :
+    c ∈ pooled srv ∨ ∃ pre post i m, evs = pre ++ .first i c (.work m) :: post ∧
+      (registerWork fx P pr cfg (runG fx P pr cfg srv pre) i c m).2.closed = false := by
+  induction evs generalizing srv with
+  | nil => exact Or.inl h
+  | cons e rest ih =>
+    simp only [runG, List.foldl_cons] at h
+    rcases ih h with h1 | ⟨pre, post, i, m, he, hc⟩
+    · rcases pooled_step h1 with h2 | ⟨i, m, he, hc⟩
+      · exact Or.inl h2
+      · exact Or.inr ⟨[], rest, i, m, by rw [he]; rfl, hc⟩
+    · refine Or.inr ⟨e :: pre, post, i, m, by rw [he]; rfl, ?_⟩
+      simpa only [runG, List.foldl_cons] using hc
+
+/-- … hence a user connection is only ever joined with a work connection that passed the check -/
+theorem user_served_by_checked_conn (evs : List Ev) {name : Str} {c : ConnId} (h0 : pooled srv = [])
+    (h : (takeWork (runG fx P pr cfg srv evs) name).2 = some c) :
+    ∃ pre post i m, evs = pre ++ .first i c (.work m) :: post ∧
+      (registerWork fx P pr cfg (runG fx P pr cfg srv pre) i c m).2.closed = false := by
+  rcases pooled_only_by_accepted_work evs (user_served_from_pool h) with h1 | h1
+  · rw [h0] at h1; cases h1
+  · exact h1
 
 /-! ## 5b. The ssh tunnel gateway: the only producer of `internal = true` (pkg/ssh, pkg/virtual) -/
 
@@ -992,6 +1452,9 @@ inductive Obs
       -- a session appeared for an ssh client of the gateway; akSet = authorizedKeysFile configured; authorized =
       -- the client proved a key listed in the file at that moment; kv = its command carried the configured
       -- token; ap = the session holds the always-pass verifier
+  | userServed (fromPool : Bool)
+      -- a user connection was joined with a work connection; fromPool = that connection was in the pool of the
+      -- session owning the proxy (so, by `pooled_only_by_accepted_work`, it passed the work-connection check)
   deriving DecidableEq, Repr
 
 def holdsOn : Obs → Bool
@@ -1000,6 +1463,7 @@ def holdsOn : Obs → Bool
   | .pingMoved ap sc kv => ap || !sc || kv
   | .refused same => same
   | .sshSession akSet au kv ap => (if akSet then au else kv) && (!ap || (akSet && au))
+  | .userServed fromPool => fromPool
 
 def Spec : Obs → Prop
   | .sessionCreated i a kv => kv = true ∨ (i = true ∧ a = true)
@@ -1008,6 +1472,7 @@ def Spec : Obs → Prop
   | .refused same => same = true
   | .sshSession akSet au kv ap =>
     ((akSet = true ∧ au = true) ∨ (akSet = false ∧ kv = true)) ∧ (ap = true → akSet = true ∧ au = true)
+  | .userServed fromPool => fromPool = true
 
 theorem holdsOn_sound (o : Obs) : holdsOn o = true ↔ Spec o := by
   cases o with
@@ -1016,6 +1481,12 @@ theorem holdsOn_sound (o : Obs) : holdsOn o = true ↔ Spec o := by
   | pooled a b c d e => cases a <;> cases b <;> cases c <;> cases d <;> cases e <;> simp [holdsOn, Spec]
   | pingMoved a b c => cases a <;> cases b <;> cases c <;> simp [holdsOn, Spec]
   | refused a => simp [holdsOn, Spec]
+  | userServed a => simp [holdsOn, Spec]
+
+/-- the model's own user connection satisfies the predicate -/
+theorem model_holdsOn_user {name : Str} {c : ConnId} (h : (takeWork srv name).2 = some c) :
+    holdsOn (.userServed (decide (c ∈ pooled srv))) = true := by
+  simp [holdsOn, user_served_from_pool h]
 
 /-- the model's own successful OIDC login satisfies the predicate with `kv` = the claim-level decision -/
 theorem model_holdsOn_login_oidc {m : Login} {rid : RunId} (hm : cfg.method = .oidc)
@@ -1263,6 +1734,49 @@ def exOSrv : Srv := (handleFirst Plugins.id exPrim exOidc Srv.empty false 1
 example : exOSrv.subjects = [[7]] := by decide
 example : (handlePing Plugins.id exPrim exOidc exOSrv 1 { ts := 0, key := [8] }).2.reply = .pongErr := by decide
 example : (handlePing Plugins.id exPrim exOidc exOSrv 1 { ts := 0, key := [7] }).2.reply = .pongOk := by decide
+
+-- TIME.  exPrimT: tokens carry exp 100; token [7] is signed by JWK 1, token [8] by JWK 2.
+def exPrimT : PrimT :=
+  { H := fun tok ts => tok ++ [ts.toNat],
+    jwtClaims := fun k => if k = [] then none else some { iss := [105], aud := [[97]], sub := k, exp := 100, nbf := none },
+    jwsOk := fun _ => true, sigBy := fun k j => (k = [7] && j = 1) || (k = [8] && j = 2) }
+def exLoginT (k : Key) : Ev := .first false 1 (.login { runId := [], ts := 0, key := k, aap := false, poolCount := 0, genId := [97] })
+def exT0 : TSrv := { srv := Srv.empty, cache := [] }
+-- at time 50 with JWK 1 published: login accepted (cache filled), ping and work connection accepted
+def exT1 : TSrv := runT true Plugins.id exPrimT exOidc exT0
+  [({ now := 50, jwks := some [1] }, exLoginT [7]), ({ now := 60, jwks := some [1] }, .ping 1 { ts := 0, key := [7] }),
+   ({ now := 70, jwks := some [1] }, .first false 2 (.work { runId := [97], ts := 0, key := [7] }))]
+example : exT1.cache = [1] ∧ exT1.srv.subjects = [[7]] ∧ exT1.srv.sessions.map (fun s => (s.pool, s.lastPing)) = [([2], 1)] := by
+  decide
+-- the very same token at time 100 (= exp) still passes, at 101 it is refused on all three paths - although it was
+-- accepted three times before; nothing changes
+example : (stepT true Plugins.id exPrimT exOidc exT1 { now := 100, jwks := some [1] } (.ping 1 { ts := 0, key := [7] })).2.reply = .pongOk := by
+  decide
+example : stepT true Plugins.id exPrimT exOidc exT1 { now := 101, jwks := some [1] } (.ping 1 { ts := 0, key := [7] })
+    = (exT1, { reply := .pongErr, closed := false }) := by decide
+example : stepT true Plugins.id exPrimT exOidc exT1 { now := 101, jwks := some [1] } (exLoginT [7])
+    = (exT1, { reply := .loginErr, closed := true }) := by decide
+example : stepT true Plugins.id exPrimT exOidc exT1 { now := 101, jwks := some [1] } (.first false 3 (.work { runId := [97], ts := 0, key := [7] }))
+    = (exT1, { reply := .startWorkErr, closed := true }) := by decide
+example : oidcVerify (primAt exPrimT (Moment.idp { now := 101, jwks := some [1] } exT1.cache)) exOidc.oidc [7] = none :=
+  expired_none (c := { iss := [105], aud := [[97]], sub := [7], exp := 100, nbf := none }) rfl rfl
+    (show (100 : Int) < 101 by decide)
+-- KEY ROTATION.  The provider now publishes JWK 2 only.  Token [7] still verifies with the CACHED key 1 ...
+example : (stepT true Plugins.id exPrimT exOidc exT1 { now := 80, jwks := some [2] } (.ping 1 { ts := 0, key := [7] })).2.reply = .pongOk := by
+  decide
+-- ... until a token signed with the new key makes go-oidc fetch the key set again: the cache becomes [2] and the
+-- old token is refused from then on
+def exT2 : TSrv := (stepT true Plugins.id exPrimT exOidc exT1 { now := 80, jwks := some [2] }
+  (.first false 5 (.login { runId := [], ts := 0, key := [8], aap := false, poolCount := 0, genId := [98] }))).1
+example : exT2.cache = [2] ∧ exT2.srv.sessions.length = 2 := by decide
+example : (stepT true Plugins.id exPrimT exOidc exT2 { now := 81, jwks := some [2] } (.ping 1 { ts := 0, key := [7] })).2.reply = .pongErr := by
+  decide
+-- the key set cannot be fetched: cached keys go on working, everything else is refused and the cache stays
+example : (stepT true Plugins.id exPrimT exOidc exT1 { now := 80, jwks := none } (exLoginT [8])) = (exT1, { reply := .loginErr, closed := true }) := by
+  decide
+-- a user connection takes the head of the pool of the session that owns the proxy
+example : (takeWork { sessions := [{ runId := [97], ctl := 1, vk := .cfg, poolCap := 11, pool := [4, 5], proxies := [[117]], lastPing := 0 }], subjects := [] } [117]).2 = some 4 := by
+  decide
 
 -- ssh gateway: authorized_keys lists key [65] twice (the later line, user [122], wins) and [66] without a user
 def exFile : Option (List (PubKey × Str)) := some [([65], [97]), ([66], []), ([65], [122])]
